@@ -2,7 +2,7 @@
    requested range.  Only statements, each closed by `exact <lemma>`, Print Assumptions beneath. *)
 From Coq Require Import NArith ZArith List Bool Lia.
 From Common Require Import Outcome.
-From C31 Require Import Gen Model ModelSpec ProofsPlan ProofsStore ProofsServe ProofsQuiet ProofsMeaning.
+From C31 Require Import Gen Model ModelSpec ProofsPlan ProofsStore ProofsServe ProofsQuiet ProofsMeaning ProofsByHash.
 Import ListNotations.
 Local Open Scope N_scope.
 
@@ -73,6 +73,31 @@ Theorem C31_serve_spec_meaning : forall s req resp, serve_spec_b s req resp = tr
   /\ (forall h x, r_from req = FromHash h -> hd_error hs = Some x -> x = h).
 Proof. exact serve_spec_meaning. Qed.
 Print Assumptions C31_serve_spec_meaning.
+
+(* Requests BY HASH: exactly when they are served (with C31_serve_by_number_answers and
+   C31_serve_never_panics this makes totality complete: every request is served or refused, and it
+   is known which).  Well-formed store, non-zero field mask, at most max_same earlier copies.
+   Ascending from hash h: served iff h is stored and, with e = min(best, number(h)+max-1) (64-bit
+   wrap as in the code), one of the candidates checkOrGetDescendantHash looks at — the block of the
+   best chain with number e, or a block of GetAllBlocksAtNumber(e) — is h itself or a descendant
+   of h.  Descending from hash h: served iff h is stored, the best chain has a block eh with number
+   e' = (number(h) > max ? number(h)-max+1 : 1), and eh is h or h's ancestor at that number (h
+   lies on the best chain at least down to e'; from genesis only when max = 0 cannot occur: e' = 1). *)
+Theorem C31_by_hash_served_iff : forall s req h seen bb,
+  indexed s -> wf_store_b s = true -> find_blk s (s_best s) = Some bb ->
+  r_from req = FromHash h -> r_fields req <> 0 -> seen <= max_same ->
+  (r_dir req = dir_asc ->
+     ((exists resp, serve s req seen = Ok resp)
+      <-> exists b d, find_blk s h = Some b
+            /\ candidate s (asc_end (b_number bb) (b_number b) (resp_max req)) d
+            /\ (h = d \/ anc_at s d (b_number b) = Some h)))
+  /\ (r_dir req = dir_desc ->
+     ((exists resp, serve s req seen = Ok resp)
+      <-> exists b eh, find_blk s h = Some b
+            /\ anc_at s (s_best s) (desc_end true (b_number b) (resp_max req)) = Some eh
+            /\ (eh = h \/ anc_at s h (desc_end true (b_number b) (resp_max req)) = Some eh))).
+Proof. exact by_hash_served_iff. Qed.
+Print Assumptions C31_by_hash_served_iff.
 
 (* CreateBlockResponse never panics: on every well-formed store every request (any start, any
    direction byte, any max including 0 and values above 128, any field byte, any repeat count) is
